@@ -340,6 +340,9 @@ func runC07(r *vf.Run) {
 		var capacity uint64
 		var seq []cop
 		rk := []uint64{1, 2, 3, 4, 5, 6, 7, 8, 9, 10, 11, 12}
+		if rng.Intn(4) == 0 {
+			rk = []uint64{0, 1, 1<<64 - 1, 1 << 63, 1<<32 - 1, 1 << 32, 0xFFFFFFFF00000000, 2, 3, 4, 5, 6} // extreme keys
+		}
 		if id == "regress-overwrite" {
 			capacity = 200
 			seq = []cop{{put: true, key: 1, size: 0}, {put: true, key: 1, size: 8000}, {key: 1}}
@@ -376,6 +379,43 @@ func runC07(r *vf.Run) {
 			r.Sample("random-sequence", map[string]any{"capacity": capacity, "keys": len(rk), "length": len(seq), "ops": s})
 		}
 	})
+	// many entries in an ample cache: nothing may be evicted, every key must hit with its own bitmap, counters exact
+	if r.Want("bulk") {
+		r.Guard("bulk", func() {
+			n := r.Pick(70000, 300000)
+			var g, p, h, m ix.Counter
+			c := updog.NewLRUCache(1<<31, updog.WithCacheMetrics(&updog.CacheMetrics{CacheHit: &h, CacheMiss: &m, GetCall: &g, PutCall: &p}))
+			shared := mkbm(1, 424242) // one bitmap object stored under several keys
+			for k := 0; k < n; k++ {
+				if k%1000 == 7 {
+					c.Put(uint64(k)*2654435761, shared)
+				} else {
+					c.Put(uint64(k)*2654435761, mkbm(0, uint32(k)))
+				}
+			}
+			bad := ""
+			for k := 0; k < n && bad == ""; k++ {
+				bm, ok := c.Get(uint64(k) * 2654435761)
+				switch {
+				case !ok:
+					bad = fmt.Sprintf("L5: key #%d of %d was evicted from a 2 GiB cache", k, n)
+				case k%1000 == 7 && bm != shared:
+					bad = fmt.Sprintf("L1: key #%d does not return the (shared) bitmap stored under it", k)
+				case k%1000 != 7 && !bm.Contains(idBase+uint32(k)):
+					bad = fmt.Sprintf("L1: key #%d returns a bitmap stored under another key", k)
+				}
+			}
+			if bad == "" && (g.N != int64(n) || p.N != int64(n) || h.N != int64(n) || m.N != 0) {
+				bad = fmt.Sprintf("L6: counters get=%d put=%d hit=%d miss=%d after %d puts and %d hits", g.N, p.N, h.N, m.N, n, n)
+			}
+			r.Eval(2 * n)
+			r.Count("bulk_entries", int64(n))
+			r.Distinct("bulk")
+			if bad != "" {
+				r.Violation("bulk", "law", map[string]any{"law": bad, "entries": n})
+			}
+		})
+	}
 	r.Sample("exhaustive-node", map[string]any{"capacity": 400, "sequence": "P1.1/P2.1/G1/P3.1", "meaning": "with capacity 400 two class-1 entries fit; the Get of key 1 makes key 2 the victim of the third Put"})
 	r.Floor("eviction where a Get hit changed the victim", r.GetCount("evictions_where_a_get_hit_changed_the_victim") > 0)
 	r.Floor("growing overwrite of a resident key", r.GetCount("growing_overwrites_of_resident_key") > 0)
